@@ -104,7 +104,7 @@ def run(chk: Check):
                 rng.shuffle(perm)
             ops = [("C", rng.randint(1, 2))]
             if rng.random() < 0.5:
-                ops += [(rng.choice(["SS", "SCH"]), mk(perm[:1]), "rr")[:3 if ops and False else 3], ("C", 1)]
+                ops += [(rng.choice(["SS", "SCH"]), mk(perm[:1]), "rr"), ("C", 1)]
             ops += [(rng.choice(["SS", "SCH"]), mk(perm), "rr"), ("C", rng.randint(1, 2)), ("K",), ("R",), ("C", rng.randint(1, 2))]
             scn.ops = [o if o[0] != "SS" else o[:2] for o in ops]
             scn.loss_table = {}
